@@ -194,6 +194,7 @@ EmitPath == steps = MaxSteps + 1 => PrintT(<<"PATH", ToJson(hist)>>)
 EmitSome == (steps = MaxSteps + 1 /\ RandomElement(1..40) = 1) => PrintT(<<"PATH", ToJson(hist)>>)
 
 Struct == StructInv(s)
+Flags == FlagInv(s)
 CacheOK == CacheInv(s)
 
 (* the view derived from the hidden state is the abstract world *)
